@@ -4,7 +4,7 @@ CONSTANTS
   Rs = {1, 2, 3}
   Offs = {0, 1}
   Ops = {"condition_on", "condition_on_explicit"}
-  PdfKinds = {"PDF:S", "PDF:SLD"}
+  PdfKinds = {"PDF:S", "PDF:SLD", "DiagPDF:S"}
 INIT Init
 NEXT Next
 CHECK_DEADLOCK FALSE
